@@ -7,11 +7,15 @@ ids = [p["id"] for p in props]
 
 WORLD_NOTE = ("Trusted base: the harness's own peers (puppet sources, probe sinks; conformant by construction, "
               "re-checked by a puppet->probe self-check in every run), the history recorder and the oracle code. "
-              "Bounded exploration: arity <= 4 (combine <= 3), <= 6 items per puppet, tree depth <= 3, schedule "
-              "length <= 24 (quick) / 48 (thorough). Exploration never proves absence.")
+              "Bounded exploration: arity <= 4 (combine <= 3, plus the arity-12 instance at the root), <= 6 items per "
+              "puppet, tree depth <= 3, schedule length <= 24 (quick) / 48 (thorough), one or two subscriptions of the "
+              "output. Peers may react from inside any handler (pull, pull twice, pull-then-leave, leave, make an "
+              "upstream push re-entrantly). The thorough tier adds a libFuzzer campaign through the same decoder and "
+              "oracles. Exploration never proves absence.")
 
 CHECKS = {
- "C01": dict(engine="world", technique="property-based testing: proptest-generated scenarios against a protocol monitor (greet-first, greet-once) at every probe sink",
+ "C01": dict(engine="world", technique="property-based testing (proptest; libFuzzer in the thorough tier): generated scenarios against a protocol monitor (greet-first, greet-once) at every probe sink",
+             note=WORLD_NOTE + " One case in eight is a virtual-clock interval scenario. About 4% of the cases use late-greeting upstreams under concat!/flatten/share/unary operators: beyond the stated quantifier (merge! only) but within the statement's premise of conformant upstreams; the unchanged tree is quiet there.",
              text="Random and shrinking search over operator trees, peer behaviours and schedules; the oracle is a pure monitor over the recorded nested history. Right level: the property is a safety property of every history, and generated histories with a monitor reach nestings no scripted test does.", ref="DESIGN.md §4 C01"),
  "C02": dict(engine="world", technique="property-based testing: generated histories against a termination-is-final monitor per probe subscription",
              text="Generated-history search with a monitor: at most one terminal per subscription, nothing after it.", ref="DESIGN.md §4 C02"),
@@ -21,7 +25,8 @@ CHECKS = {
              text="Generated-history search; puppets record everything operators send upstream; invariants: one subscription, no message before greeting / after end / after termination, exactly one termination when the output is over, Error kind preserved through pass-through paths.", ref="DESIGN.md §4 C04"),
  "C05": dict(engine="world", technique="property-based testing with fault injection: a generated upstream failure at every position, oracle = exactly one Error with the same Arc at every attached sink",
              text="Generated fault positions; identity of the error checked with Arc::ptr_eq at the probe. One listed known finding (D6, combine!).", ref="DESIGN.md §4 C05"),
- "C17": dict(engine="world", technique="property-based testing: catch_unwind around every generated environment step over all scenario profiles",
+ "C17": dict(engine="world", technique="property-based testing (proptest; libFuzzer in the thorough tier): catch_unwind around every generated environment step over all scenario profiles, pipelines and virtual-clock scenarios",
+             note=WORLD_NOTE + " Late-greeting upstreams are generated under concat!/flatten/unary operators (quiet on the unchanged tree) but not under share, where a sink pulling before the upstream greeted panics: that situation is outside the property's quantifier.",
              text="Every top-level step of every generated scenario runs under catch_unwind with a recording panic hook; any panic with conformant peers is a violation.", ref="DESIGN.md §4 C17"),
  "C07": dict(engine="world", technique="model-based property testing: map/filter/scan/take/skip over one puppet checked after every upstream message against the list-function reference model, with positional (nesting) clauses",
              text="Generated emissions, bursts, sink policies and parameters; after every upstream message the data at the probe must equal F(data sent so far) for the reference F, each output nested inside the input that caused it; completion clauses per operator. Push and pull modes are both generated and checked against the same model.", ref="DESIGN.md §4 C07"),
@@ -36,8 +41,8 @@ CHECKS = {
  "C12": dict(engine="world", technique="model-based property testing: share over one puppet with 1..3 probes against a reference-count model",
              text="Generated attach/detach/pull orders interleaved with source data/end/error; oracle: a fresh upstream exactly when a sink attaches while none is attached, never two live upstreams, fan-out equals what was emitted while attached, one upstream Pull per sink Pull, upstream disposed exactly in the detach that empties the list.", ref="DESIGN.md §4 C12",
              note=WORLD_NOTE + " With 2+ probes the puppet never answers a Pull synchronously (the property's quantifier excludes nested fan-out; that case is generated for C02/C03 instead)."),
- "C13": dict(engine="world", technique="metamorphic property testing: a two-subscription interleaved run projected onto each subscription must equal that subscription's solo run, event for event",
-             text="Generated operator (any but share, also nested one level, and from_iter), two probes with independent scripts and a generated interleaving; the oracle re-runs each subscription alone and compares the normalised projections including closure calls and Iterator::next/clone calls; foreign events inside a subscription's steps are reported as cross-talk.", ref="DESIGN.md §4 C13"),
+ "C13": dict(engine="world", technique="metamorphic property testing: a two-subscription interleaved run projected onto each subscription (by actor identity) must equal that subscription's solo run",
+             text="Generated operator (any but share, also nested one level, and from_iter), two probes with independent scripts, a generated interleaving and cross-subscription pulls issued from inside the other subscription's handlers; the oracle re-runs each subscription alone (cross-issued pulls become top-level pulls) and compares the order of all deliveries, closure calls and Iterator::next/clone calls. interval is judged by the per-subscription tick model on the virtual clock.", ref="DESIGN.md §4 C13, §12.6"),
  "C14": dict(engine="world", technique="property-based testing with a counting invariant over every prefix: Data <= Pulls at the sink, and outstanding demand is always in flight at some upstream",
              text="Pullable puppets (one answer per Pull, inside the call or deferred) and credit-respecting sinks over from_iter/map/filter/scan/take/skip/concat!/flatten and two-level compositions; invariants evaluated at every delivery and after every top-level step.", ref="DESIGN.md §4 C14",
              note=WORLD_NOTE + " take is not placed under concat!/flatten here: it ends unasked after its nth item, so its output does not satisfy the premise the property puts on upstreams."),
@@ -55,7 +60,7 @@ CHECKS = {
  "C19": dict(engine="sched", technique="schedule enumeration and random schedule generation under an owned lock-step thread scheduler, with counting oracles at the sink and at a transparent tap above take",
              text="take(n), n in 1..3, fed by merge! of 2-3 member threads or directly by one source delivering from 2-3 threads; same scheduler and generators as C18 with take.rs hooked. Oracle: at most n data at the sink, exactly one Terminate to the sink and exactly one termination on take's upstream edge once n were delivered, no member terminated twice.", ref="DESIGN.md §4 C19",
              note="Trusted base as for C18."),
- "C20": dict(engine="trace-diff", technique="differential property testing across build configurations: identical generated cases run with the crate's `tracing` feature off, on without a subscriber, and on with a field-formatting subscriber; per-case history digests compared",
+ "C20": dict(engine="trace-diff", technique="differential property testing across build configurations: identical generated cases (including cases with non-conformant peers) run with the crate's `tracing` feature off, on without a subscriber, and on with a field-formatting subscriber; per-case history digests compared",
              text="Two harness builds (target/ and target-tracing/) generate the same case sequence from the seed; the digest covers every message and value at every harness actor and every closure / Iterator::next call, so a dropped, duplicated or twice-evaluated message expression under the feature changes it. A differing case is shrunk under the predicate `digests differ` and saved as a replay that re-runs in both builds.", ref="DESIGN.md §4 C20",
              note="Trusted base: determinism of case generation and of the interpreters across the two builds, the digest (FNV-1a over the normalised log), the minimal subscriber. Clone counts of values are deliberately not part of the digest."),
 }
